@@ -175,6 +175,10 @@ namespace rkcommon {
     template <typename T>
     inline Optional<T> &Optional<T>::operator=(const Optional &other)
     {
+      if (!other.has_value()) {
+        reset();
+        return *this;
+      }
       default_construct_storage_if_needed();
       value()  = other.value();
       hasValue = true;
@@ -184,6 +188,10 @@ namespace rkcommon {
     template <typename T>
     inline Optional<T> &Optional<T>::operator=(Optional &&other)
     {
+      if (!other.has_value()) {
+        reset();
+        return *this;
+      }
       default_construct_storage_if_needed();
       value()  = std::move(other.value());
       hasValue = true;
@@ -213,6 +221,10 @@ namespace rkcommon {
                     " parameter of an instance being copied-from be"
                     " convertible to the type parameter of the destination"
                     " Optional<>.");
+      if (!other.has_value()) {
+        reset();
+        return *this;
+      }
       default_construct_storage_if_needed();
       value()  = other.value();
       hasValue = true;
@@ -228,6 +240,10 @@ namespace rkcommon {
                     " parameter of an instance being moved-from be"
                     " convertible to the type parameter of the destination"
                     " Optional<>.");
+      if (!other.has_value()) {
+        reset();
+        return *this;
+      }
       default_construct_storage_if_needed();
       value()  = other.value();
       hasValue = true;
